@@ -196,7 +196,7 @@ def replay(path, exe=None, quiet=False):
 def main(tier, base_seed):
     t0 = time.time()
     exe = build_sim()
-    nruns = int(os.environ.get("VERIF_RUNS", RUNS[tier]))
+    nruns = max(CHUNK, int(RUNS[tier] * float(os.environ.get("VERIF_RUNS", "1"))))    # VERIF_RUNS: scale factor (experiments only)
     imod = IHASH_MOD[tier]
     workers = int(os.environ.get("VERIF_WORKERS", "16"))
     log("[C18] tier=%s base_seed=%d runs=%d" % (tier, base_seed, nruns))
